@@ -68,3 +68,8 @@ func verifNewCore(n int, self int) *verifCore {
 	vc.c = newCore(NewValidator(verifKey(self), fmt.Sprintf("node%d", self)), vc.set, vc.set, vc.store, cb, false, verifLogger())
 	return vc
 }
+
+func keysPub(i int) []byte {
+	k := verifKey(i)
+	return keys.FromPublicKey(&k.PublicKey)
+}
